@@ -27,6 +27,12 @@ def topoP : P Topo := do
   let FE ← rows; let N ← nats; let nEdge ← nat; let E ← pairs
   pure ⟨FE, N, nEdge, E⟩
 
+/-- the ring / counter-clockwise oracle works on DIRECTIONS: every coordinate vector is scaled
+    to unit length first (grids may carry Cartesian coordinates on a sphere of any radius) -/
+def unitV (v : V3 Float) : V3 Float :=
+  let n := Float.sqrt (v.x * v.x + v.y * v.y + v.z * v.z)
+  if n > 0.0 then ⟨v.x / n, v.y / n, v.z / n⟩ else v
+
 def encVerdict (v : Verdict) : String :=
   let cl := (if v.count then [] else ["count"]) ++ (if v.rows then [] else ["rows"]) ++
             (if v.ringBad.isEmpty then [] else ["ring"]) ++ (if v.ccwBad.isEmpty then [] else ["ccw"])
@@ -36,9 +42,10 @@ def encVerdict (v : Verdict) : String :=
 def handle (cmd : String) (args : List Int) : Option String :=
   match cmd with
   | "C18.model" => do
-      -- flags (1 = tangent-plane key, 2 = gather non-fill entries; 3 = repaired algorithm) NF nodes cents
+      -- flags (1 = tangent-plane key, 2 = gather non-fill entries; 3 = repaired algorithm; 4 = unit-normal helper) NF nodes cents
       let (rep, i) ← run (do let r ← nat; let i ← inP; pure (r, i)) args
-      pure (encRows (constructDual numF (rep % 2 == 1) (rep / 2 % 2 == 1) i.nodes i.cents i.NF))
+      if rep == 4 then pure (encRows (constructDualUnitHelper numF i.nodes i.cents i.NF))
+      else pure (encRows (constructDual numF (rep % 2 == 1) (rep / 2 % 2 == 1) i.nodes i.cents i.NF))
   | "C18.discrete" => do
       let (NF, D) ← run (do let a ← rows; let b ← rows; pure (a, b)) args
       pure (encBool (decide (DiscreteSpec NF D)))
@@ -46,7 +53,7 @@ def handle (cmd : String) (args : List Int) : Option String :=
       -- NF nodes cents FE N nEdge E eps D
       let (i, t, eps, D) ← run (do
         let i ← inP; let t ← topoP; let eps ← float; let D ← rows; pure (i, t, eps, D)) args
-      pure (encVerdict (verdict numF ⟨i.nodes, i.cents, eps⟩ t i.NF D))
+      pure (encVerdict (verdict numF ⟨i.nodes.map unitV, i.cents.map unitV, eps⟩ t i.NF D))
   | "C18.nodeface" => do
       -- n face_node_table: the transpose computed by C03's proved model (rows padded at the end)
       let (n, t) ← run (do let n ← nat; let t ← rows; pure (n, t)) args
